@@ -237,6 +237,7 @@ pub fn run(run: &Run) {
     run.explore(&u2::LenUniverse { presents: u2::Presents::AcceptedStride(run.tier.pick(509, 61)), name: "U2-len/accepted-stride" });
     run.explore(&u2::sig_universe());
     run.explore(&u2::addr_universe());
+    run.explore(&u2::anybyte_universe());
     run.explore(&u2::byte_universe(run.tier.pick(3, 4)));
     explore_all(run, &seq_universes(run.tier, true, true));
     run.explore(&super::c11::EmbeddedStructured::new(false));
